@@ -47,7 +47,7 @@ func init() {
 					if c.Tier == "thorough" {
 						return 20000
 					}
-					return 400
+					return 1500
 				},
 				Plan: planC09life,
 				Exec: execC09,
